@@ -243,14 +243,23 @@ CLAIMS["C01"] = dict(
         "and runtime models are tied to the code by K-gen (text equality) and K-run (trace equality). Explored: hand-written "
         "shapes (actions in groups, outer actions, && on names, cuts with actions, look-alike groups) and random well-formed "
         "grammars x all token sequences up to length 3-4.",
-   design="6/C01", technique="Coq reference semantics (determinism, evaluator soundness) + compilation-correctness theorem for the flat IR fragment + per-case evaluation of the reference inside Coq against the implementation + K-gen/K-run",
-   note="A first compilation-correctness THEOREM (C01_interpreter_implements_the_reference_semantics_on_flat_modules, "
-        "Proofs/FlatSem.v): for every IR module whose alternatives are sequences of calls of rule methods, token primitives and "
-        "expect() under at most one wrapper (optional, lookahead, forced, cut) with the default action -- read back as a grammar -- "
-        "whenever the interpreter (cache off, quiet) returns, the reference semantics derives exactly that value and end position, "
-        "or failure; all token lists, states and fuel. Partial: for ALL grammars run(gen g) = peg g is not proved (loops, gathers, "
-        "explicit actions, left recursion, and the link from the module read back to the source grammar are missing); for the "
-        "explored cases the equality is machine-checked case by case. Known finding: lookahead over a forced item consumes.")
+   design="6/C01", technique="Coq reference semantics (determinism, evaluator soundness) + compilation-correctness theorems (IR interpreter = reference semantics with repetitions and gathers; desugaring relation sound; end-to-end for action-free grammars with a decidable instance condition) + per-case evaluation of the reference inside Coq against the implementation + K-gen/K-run",
+   note="Compilation correctness as THEOREMS (Props/C01.v): (1) C01_interpreter_implements_the_reference_semantics_with_repetitions_and_gathers "
+        "(Proofs/FlatSem.v, Proofs/IrSem.v): for every IR module whose plain methods are sequences of calls of rule methods, token "
+        "primitives, expect(), repetition helpers and gather helpers, under at most one wrapper (optional, lookahead, forced, cut), default "
+        "action -- read back as a grammar with the repetitions inline -- whenever the interpreter (cache off, quiet) returns, the reference "
+        "semantics derives exactly that value and end position, or failure; all token lists, states and fuel. (2) desugar_sound "
+        "(Proofs/Desugar.v): the grammar read back and the SOURCE grammar, related as the generator relates them (groups as helper rules or "
+        "inlined single items, repetitions over one-item groups, gathers as helper rules), have the same derivations. (3) "
+        "C01_generated_parser_implements_the_source_grammar (Proofs/GenSem.v): for every grammar rs and module M with the DECIDABLE "
+        "reads_back_as rs M = true, whenever a rule's method returns, that is what the reference semantics of rs prescribes; the same with "
+        "the packrat cache on (via C04 cache transparency), and a SyntaxError raised by the parse is a forced-item error of rs "
+        "(C01_syntax_errors_are_forced_errors_of_the_source_grammar, uncached and cached). The "
+        "condition is evaluated in Coq on the generator model's output for a floor of 21 action-free shapes (must hold) and for every "
+        "explored grammar (coverage count in the evidence; all explored action-free random grammars are inside). Partial: explicit "
+        "actions, left recursion, invalid_ passes, LOCATIONS, forced items over nullable or forced operands, and the completeness "
+        "direction (the parser returns whenever the semantics derives) are not theorems; for those the equality is machine-checked case "
+        "by case. Known finding: lookahead over a forced item consumes.")
 CLAIMS["C19"] = dict(
    text="Coq theorems (Props/C19.v), both halves. Empty marker: for every grammar, token list, position and action "
         "interpretation, an item (rule) that the reference PEG semantics matches WITHOUT consuming is nullable under every "
